@@ -185,6 +185,18 @@ CHECKS = {
 }
 
 CHECKS_EXTRA = {
+    "C17": ("explicit enumeration of generated programs (reference graph x spelling of every reference x definition order x "
+            "scope) x first-use orders x inputs, each executed in a fresh module on the real library and compared with a "
+            "structural reference model",
+            "6 reference graphs (self, A->B, A<->B, A->B through two fields, A->B->C->A, A->B plus a decorated function "
+            "declared before both) x 9 spellings per reference (direct, 'B', List['B'], Dict[str,'B'], Optional['B'], "
+            "Union['B', None], 'List[B]', any_of('B', None), postponed evaluation) x every definition order Python accepts x "
+            "{module, function-local} x every first-use order x 12-15 inputs per class (nesting 0..3, valid / convertible / "
+            "invalid leaf, nested mapping without its required field): verdict and nested result equal the model from the "
+            "first call on. Plus two modules declaring classes of the same names in 4 declare / use orders x 6 spellings.",
+            "Trusted: the 40-line structural model (what the program means with direct references). Each program runs in a "
+            "fresh module with typing's caches reset, except inside the two-module scenario.",
+            "DESIGN.md §3 C17"),
     "C19": ("bounded-exhaustive exploration: input snapshots over the container-valued product space, explicit enumeration "
             "of instantiate / mutate histories on declarations with mutable defaults, and all ordered call sequences on "
             "shared types compared with fresh types",
